@@ -71,13 +71,18 @@ def _job(args):
     dom = L.domain(spec, opts, console)
     cases.append(("layout_smin", [tree], str(sm), None, None))
     note("kind:" + spec[0])
-    note("domain:" + dom)
+    note("domain:" + dom.split(":")[0])
     note("depth:%d" % L.depth(spec))
     if obj is not None:
         note("shared-object")
         widths = list(widths)
         widths = widths[len(widths) // 2:] + widths[: len(widths) // 2]  # not monotone: a stale cached width would show
+    general = spec[0] == "TABLE" and any(co.get("width") is not None or co.get("min_width") is not None or co.get("no_wrap", False)
+                                        for co, _h, _f, _cs in spec[2])
     for w in widths:
+        console._verif_w = w
+        if general:
+            dom = L.domain(spec, opts, console)
         if obj is not None and w % 3 == 0:
             L.real_measure(console, spec, w, obj=obj)  # interleave measuring and rendering on the same object
         out = L.real_text(console, spec, opts, w, obj=obj)
@@ -88,6 +93,14 @@ def _job(args):
             impl = "ok:" + enc_str(out)
         cases.append(("layout_render", [FLAGS, L.env_enc(cwidth), L.enc_opts(opts), w, tree], impl, "w-smin=%d" % min(w - sm, 13) if w >= sm else "below",
                       f"Console({cwidth}).render({spec!r}, width={w}, {opts})"))
+        if w >= sm and dom.startswith("floor:") and not out.startswith("err:"):
+            # a table with min_width columns that meets the budget: at most `floorSum` cells wider than the offer (C07 width_bound_general)
+            fl = int(dom[6:])
+            lw = L.line_widths(out)
+            okg = all(x <= w + fl for x in lw)
+            checks.append((okg, "Table with min_width columns", (spec, cwidth, opts, w) if not okg else None,
+                           f"a line is {max(lw)} cells wide with {w} available and min_width floors of {fl}", None))
+            continue
         if w >= sm and dom != "out":
             if out.startswith("err:"):
                 checks.append((False, "Console.render", (spec, cwidth, opts, w), f"rendering raised {out[4:]}", None))
@@ -157,6 +170,17 @@ def corner_specs():
         ("TABLE", {"expand": True}, [({"ratio": 1}, T("r"), T(""), [T("x")]), ({}, T("wide"), T(""), [T("a considerably wider ordinary column here")])]),
         ("TABLE", {"expand": True, "box": None, "padding": (0, 0, 0, 0)}, [({"ratio": 2}, T("r"), T(""), [T("x")]), ({"ratio": 1}, T("q"), T(""), [T("yy")]), ({}, T("wide"), T(""), [T("wide wide wide wide")])]),
         ("RULE", {"title": "styled title", "title_styled": True}),
+    ] + [
+        # lines whose CHARACTER count equals a width while their CELL count does not (double-width and zero-width characters cancel
+        # or do not): cropped / ellipsised / not wrapped at every width around len(text), exposed at top level and through the
+        # pass-through containers (a `len(text) == total` shortcut in set_cell_size shows here)
+        wrap(("T", dict(plain=txt, **kw)))
+        for txt in ("ああ̀b", "あ̀あ̀ああ", "a😽​bあ", "ああああ", "àb̀c̀あい", "x あ̀あ̀ああ y")
+        for kw in (dict(overflow="crop", no_wrap=True), dict(overflow="ellipsis", no_wrap=True), dict(no_wrap=True), dict(overflow="crop"),
+                   dict(overflow="ellipsis"))
+        for wrap in (lambda e: e, lambda e: ("GRP", True, [e]), lambda e: ("ALIGN", {"align": "left"}, e), lambda e: ("CON", None, e),
+                     lambda e: ("STY", e))
+    ] + [
         ("TABLE", {"expand": True}, [({"ratio": 1}, T("a"), T(""), [T("x")]), ({"ratio": 0}, T("b"), T(""), [T("y")]),
                                      ({}, T("c"), T(""), [T("long long long long long long long long text")])]),
         ("TABLE", {"expand": True, "box": None}, [({"ratio": 0}, T("b"), T(""), [T("y")]), ({"ratio": 2}, T("a"), T(""), [T("x x x x x x x x x x x x")])]),
@@ -186,7 +210,7 @@ def run(ctx):
         if rng.random() < 0.15:
             opts["justify"] = rng.choice(["left", "center", "right", "full"])
         if rng.random() < 0.15:
-            opts["overflow"] = rng.choice(["fold", "crop", "ellipsis"])
+            opts["overflow"] = rng.choice(["fold", "crop", "ellipsis", "ignore"])
         if rng.random() < 0.06:
             opts["no_wrap"] = True
         cwidth = rng.choice([80, 80, 40, 12, 200])
@@ -261,16 +285,21 @@ MANIFEST = {
     "200, console widths 12..200, ASCII-only / legacy-Windows / colour consoles, objects re-rendered to expose kept state; smin computed "
     "independently in Python and cross-checked; the property evaluated directly on rich's own output on a domain WIDER than the theorem's "
     "(ratio tables, Constrain/Align at any width, Columns(width>=1), Table(width)).",
-    "note": "Findings: progressbar-no-newline (F23, known) and table-ratio-zero-column (found by this check: Table(expand=True) with columns ratio=1, "
-    "ratio=0 and a wide ordinary column was one cell too wide at every width where the wide column wraps; repaired by fix 75c2776, modelled "
-    "by C07's flag flexClampZero, witness `old_ratio_zero_column_overflows`).  Excluded from the theorem with witness: text overflow='ignore' / explicit end, a group "
-    "member that does not end its line, table columns with width / min_width / no_wrap, Columns(width=0) (a ratio=0 column in an expanding table only for the code before fix 75c2776).  NOT DISCHARGED (no counterexample in any run, evaluated directly): Constrain/Align narrower than the child's structural "
-    "minimum, Table(width) below one cell per column, Columns(width>=1), a Rule under overflow='ignore'.  Outside the model (driver answers "
-    "`unmodelled`, counted): panel/rule titles that are not one-line simple text or are wider than console.width (only when rendering wider "
-    "than the console), a __rich__ that returns another __rich__ object, styles (only text and segmentation are modelled; a str is modelled as "
-    "the Text render_str makes of it).  `Text.Inv` of the wrapped-and-joined text is checked at run time by the model instead of being proved "
-    "preserved by every overflow/justify combination of wrap.  smin reads Columns as one column per item.  Observation (C08's ground): a Rule "
-    "truncates a Text title object in place, so re-rendering the same Rule wider keeps the narrow title.  Trusted: Lean kernel, axioms "
+    "note": "Findings: progressbar-no-newline (F23, known) and table-ratio-zero-column (found by this check, repaired by fix 75c2776, "
+    "witness `old_ratio_zero_column_overflows`).  Domain `Dom` of the theorem: text/str not overflow='ignore' and end in {newline, ''}; "
+    "every group member but the last ends its line; tables with columns free to wrap (any number of columns, ratios included) OR "
+    "arbitrary columns (width / max_width / no_wrap) within C07's budget `tableBudget`, with the exact bound `table_general_bound` "
+    "(available width + min_width floors) when a min_width binds; panels with ANY title (rendered as a Text at the panel's width); rules "
+    "under every options incl. overflow='ignore'.  Each exclusion has a machine-checked witness (`excluded_*`).  STILL NOT DISCHARGED (no "
+    "counterexample: evaluated directly in every run, plus a brute-force search over 40k Columns(width>=1) and 4k below-minimum tables on "
+    "real rich): Constrain/Align narrower than the child's structural minimum, Table(width) below one cell per column, "
+    "Columns(width>=1) — all three reduce to one missing arithmetic fact, `_calculate_column_widths` of free columns BELOW one cell per "
+    "column never exceeds one cell per column (and, for Columns(width), the last-resort ratio_reduce path), which would let the induction "
+    "be restated as `no line wider than max(W, smin)`.  Outside the model (driver answers `unmodelled`; 0 requests on today's code): a "
+    "__rich__ that returns another __rich__ object, a raising expand_tabs; styles are not modelled (a str is modelled as the Text render_str "
+    "makes of it; rule titles are one-line simple texts; the spans of a styled panel/rule title are not modelled — they only matter when an over-long line is cropped exactly at a zero-width character, seen once in 1.7M cases).  `Text.Inv` of the wrapped-and-joined text is checked at run time by the model; "
+    "the panel title's end/no_wrap/overflow fields are re-asserted by a record update in the model.  smin reads Columns as one column per "
+    "item.  Observation (C08's ground): a Rule truncates a Text title object in place.  Trusted: Lean kernel, axioms "
     "propext/Classical.choice/Quot.sound, translator, correspondence harness; variant flags follow props/c02.py, c07.py, c08.py.",
     "design_ref": "DESIGN.md section 7, C01/C07/C08/C09",
 }
